@@ -77,6 +77,13 @@ NOISE = [
     ['var nz_k = "x${"', '"}y\\n', '";'],
     ['var nz_l = "\\x0a\\x0a";'],
     ['', '   ', '// only a comment', ''],
+    # constant expressions (what a compiler may fold or rewrite after emitting: negated / inverted literals, literal arithmetic, literal
+    # concatenation, literal conditions) - a rewrite of code already written must keep the line table in step
+    ['var nz_m = [-1, -2, -3];'],
+    ['var nz_n = -273.15 + -0 - -1; var nz_o = (-5, -10, -20);'],
+    ['var nz_p = !true; var nz_q = ~5; var nz_r = -(-(2)); var nz_s = !!nil;'],
+    ['var nz_t = 1 + 2 * 3 - 4 / 2; var nz_u = "a" + "b"; var nz_v = true && false || true; var nz_w = 1 < 2; var nz_x = 1 == 1;'],
+    ['var nz_y = [-1][-1]; if false { print("never"); } while false { print("never"); }'],
 ]
 
 
@@ -107,9 +114,15 @@ def gen_trace_program(rng):
     uid = 0
     # build from the innermost outward: innermost body contains the failing statement
     frames = []      # (label for trace, line of executing statement) innermost first
+    body_noise = rng.fork("body-noise")
+    one_liners = [it for it in NOISE if len(it) == 1 and it[0].startswith("var ")]
     def emit(l):
         lines.append(l)
-        return len(lines)
+        n = len(lines)
+        if l.lstrip().startswith("fn ") and l.rstrip().endswith("{") and body_noise.chance(1, 2):
+            # the same lexical noise at the start of a function body: the line table of THAT function must stay in step too
+            lines.append("    " + one_liners[body_noise.below(len(one_liners))][0])
+        return n
     for nl in noise_lines(rng.fork("noise")):
         emit(nl)
     if rng.chance(1, 3):
